@@ -358,13 +358,50 @@ func RegisterType(t reflect.Type, ord int) {
 	delete(typeKeyCache, t)
 }
 
+// typeKey is the canonical sort key of a type: its registered ordinal, or a
+// structural rendering built from the keys of its component types (so that two
+// distinct types that merely print alike, e.g. same-named types of different
+// packages inside a func signature, still sort deterministically and apart).
 func typeKey(t reflect.Type) string {
 	if k, ok := typeKeyCache[t]; ok {
 		return k
 	}
 	k, ok := typeOrd[t]
 	if !ok {
-		k = t.String()
+		typeKeyCache[t] = t.String() // guards recursive types
+		switch t.Kind() {
+		case reflect.Func:
+			k = "func("
+			for i := 0; i < t.NumIn(); i++ {
+				k += typeKey(t.In(i)) + ","
+			}
+			k += ")("
+			for i := 0; i < t.NumOut(); i++ {
+				k += typeKey(t.Out(i)) + ","
+			}
+			k += ")"
+		case reflect.Ptr:
+			k = "*" + typeKey(t.Elem())
+		case reflect.Slice:
+			k = "[]" + typeKey(t.Elem())
+		case reflect.Array:
+			k = fmt.Sprintf("[%d]", t.Len()) + typeKey(t.Elem())
+		case reflect.Map:
+			k = "map[" + typeKey(t.Key()) + "]" + typeKey(t.Elem())
+		case reflect.Struct:
+			if t.Name() != "" {
+				k = t.PkgPath() + "." + t.Name()
+				break
+			}
+			k = "struct{"
+			for i := 0; i < t.NumField(); i++ {
+				f := t.Field(i)
+				k += f.Name + " " + typeKey(f.Type) + " " + strconv.Quote(string(f.Tag)) + ";"
+			}
+			k += "}"
+		default:
+			k = t.PkgPath() + "|" + t.String()
+		}
 	}
 	typeKeyCache[t] = k
 	return k
